@@ -50,6 +50,7 @@ def run(ctx):
     HR.check_roles(ctx, ht, 'C05.1', select=geom)
     HR.check_reader_roles(ctx, ht, 'C05.1')
     spec_handover(ctx)
+    numpy_axes(ctx)
     ctx.floor('C05.1', 60)
     rounding(ctx, ht)
     generator(ctx)
@@ -111,6 +112,31 @@ def is_rounded(e):
     while isinstance(e, ast.Call) and len(e.args) >= 1 and U(e.func).split('.')[-1] in ('int32', 'int', 'array', 'asarray', 'int64'):
         e = e.args[0]
     return isinstance(e, ast.Call) and U(e.func).split('.')[-1] in ('round', 'rint', 'around', 'round_')
+
+
+def numpy_axes(ctx):
+    """NumPy route: header grids are (IL, XL) ordered; the inline axis is a COLUMN of the INLINE_3D grid ([:, k]), the
+    crossline axis a ROW of the CROSSLINE_3D grid ([k, :])."""
+    f = ctx.P.func('conversion.NumpyConverter.__init__')
+    n = 0
+    for a in ast.walk(f.node):
+        if isinstance(a, ast.Assign) and U(a.targets[0]) in ('self.ilines', 'self.xlines') and isinstance(a.value, ast.Subscript) \
+                and isinstance(a.value.slice, ast.Tuple) and len(a.value.slice.elts) == 2:
+            n += 1
+            ax = 'IL' if U(a.targets[0]) == 'self.ilines' else 'XL'
+            grid = 'INLINE_3D' if 'INLINE_3D' in U(a.value.value) else 'CROSSLINE_3D' if 'CROSSLINE_3D' in U(a.value.value) else '?'
+            e0, e1 = a.value.slice.elts
+            runs = 0 if isinstance(e0, ast.Slice) and not isinstance(e1, ast.Slice) else \
+                1 if isinstance(e1, ast.Slice) and not isinstance(e0, ast.Slice) else None
+            want_grid = {'IL': 'INLINE_3D', 'XL': 'CROSSLINE_3D'}[ax]
+            want_run = {'IL': 0, 'XL': 1}[ax]
+            if grid == want_grid and runs == want_run:
+                ctx.ok('C05.1', f, a, '%s axis = the %s grid along position %d' % (ax, grid, runs))
+            else:
+                ctx.fail('C05.1', f, a, 'the %s axis is taken from `%s`: the %s grid varies along position %d of an (inline, crossline) '
+                         'array' % (ax, U(a.value)[:70], want_grid, want_run))
+    if n < 2:
+        raise AnalysisError('NumpyConverter.__init__: axes taken from the header grids not found')
 
 
 def rounding(ctx, ht):
